@@ -202,6 +202,39 @@ func tree(g *hx.Gen, idx int) {
 			trunk = br
 		}
 	}
+	// orphan siblings: a withheld parent with 2–3 children (each with a tail) delivered first; the
+	// longest tail must become the tip once the parent arrives
+	if r.Chance(60) {
+		tipHash, _ := sim.N.Tip()
+		base := trunk
+		if tipHash != sim.BranchTip(trunk).Hash() {
+			base = nil // the node is not on the chain the generator tracks (failed switch): skip
+		}
+		if base != nil {
+			parent := h.HonestBlock(base, 1)
+			pbr := regnet.Extend(base, parent)
+			kids := 2 + r.Intn(2)
+			var waiting []*types.Block
+			for k := 0; k < kids; k++ {
+				cbr := pbr
+				for t := 0; t <= k+r.Intn(2); t++ {
+					b := h.HonestBlock(cbr, 1)
+					cbr = regnet.Extend(cbr, b)
+					waiting = append(waiting, b)
+				}
+			}
+			// children first, in a random order; then the parent
+			for i := len(waiting) - 1; i > 0; i-- {
+				j := r.Intn(i + 1)
+				waiting[i], waiting[j] = waiting[j], waiting[i]
+			}
+			for _, b := range waiting {
+				h.Deliver(b)
+			}
+			h.Deliver(parent)
+			h.Observe(false, 4)
+		}
+	}
 	h.Emit("obs c h")
 	_ = strconv.Itoa
 }
